@@ -110,6 +110,15 @@ def index_record(inp):
     r = dict(op='index', cont=inp['cont'], coll=coll_desc(items, k, prefix, dtype), ix={x: v for x, v in inp['ix'].items() if x not in ('as', 'np')},
              ix_after=[])
     obj, watch = to_index(inp['ix'])
+    if '_real' in inp:
+        real = inp['_real']
+        how = inp['ix'].get('as')
+        if isinstance(real, list):
+            obj = list(real) if how == 'list' else np.array(real, dtype=how)
+        else:
+            obj = real
+        watch = None
+        before = list(obj) if isinstance(real, list) else None
     try:
         if inp['cont'] == 'pylist':
             lst = [tuple(it) for it in items]
@@ -133,6 +142,9 @@ def index_record(inp):
         r['res'] = dict(kind='error', items=[], k=0, prefix=[], dtype='', err=type(e).__name__, bounds=[], nvalues=0)
     if watch is not None:
         r['ix_after'] = [bool(v) if inp['ix']['t'] == 'mask' else int(v) for v in watch]
+    elif '_real' in inp and isinstance(inp['_real'], list):
+        # the record carries representative values: report "unmodified" by echoing them iff the real index object is unchanged
+        r['ix_after'] = list(inp['ix']['v']) if [int(x) for x in obj] == [int(x) for x in before] else []
     return r
 
 
@@ -318,6 +330,48 @@ class LongNarrow(Fam):
     corrupt = Indexing.corrupt
 
 
+BIG = 10 ** 6      # representative of "far out of range" in the records shipped to TLC (TLC integers are 32-bit)
+
+
+class ExtremeIndexValues(Fam):
+    name = 'extreme-index-values'
+    exhaustive = True
+    rule = ('indices at the edges of the 64-bit ranges (2^64-1, 2^64-n, 2^63, 2^63-1, -2^63, 2^32, 2^31, ...) as Python ints, lists, uint64 and '
+            'int64 arrays, alone and mixed with valid indices, on collections of length 3 and 200 in array / list / HDF5 containers: all must '
+            'raise (values are shipped to TLC as +-10^6, equally out of range)')
+
+    def inputs(self, ctx):
+        for n, items in ((3, make_items(3)), (200, [[j] for j in range(200)])):
+            ext = [2 ** 64 - 1, 2 ** 64 - n, 2 ** 64 - n - 1, 2 ** 63, 2 ** 63 - 1, 2 ** 32, 2 ** 31, 2 ** 31 - 1, 2 ** 16, -2 ** 63, -2 ** 31, -2 ** 63 + n]
+            for cont in ('array', 'list', 'hdf5'):
+                for v in ext:
+                    forms = [('int', None)]
+                    if 0 <= v < 2 ** 64:
+                        forms += [('ints', 'u8'), ('ints', 'list')]
+                    if -2 ** 63 <= v < 2 ** 63:
+                        forms += [('ints', 'i8')]
+                    for t, how in forms:
+                        for mix in ([], [0]):
+                            if t == 'int' and mix:
+                                continue
+                            yield dict(op='index', cont=cont, items=items, k=8, prefix='ATG', dtype='u2', real=([v] + mix if t == 'ints' else v),
+                                       ix=(dict(t='int', v=BIG if v > 0 else -BIG) if t == 'int' else dict(t='ints', v=[BIG if v > 0 else -BIG] + mix, **{'as': how})))
+
+    def execute(self, inp):
+        # the record carries the representative value; the real call uses the extreme one
+        real = inp['real']
+        ix = dict(inp['ix'])
+        rec_inp = dict(inp)
+        r = index_record(dict(rec_inp, ix=ix, _real=real))
+        return r
+
+    nontrivial = Indexing.nontrivial
+
+    def corrupt(self, rec):
+        rec['res']['kind'] = 'coll'
+        return rec
+
+
 class Calibration(Fam):
     """The same index expressions on a plain Python list / NumPy object array: validates that the spec IS list semantics."""
     name = 'calibration-plain-list'
@@ -446,7 +500,7 @@ def replay_spec_histories(ctx):
     ctx.add_samples([dict(family='spec-history-replay', history=next(iter(hists.values())))], limit=1)
 
 
-FAMILIES = [Indexing, LongNarrow, Equality, RandomMutations]
+FAMILIES = [Indexing, LongNarrow, ExtremeIndexValues, Equality, RandomMutations]
 
 
 def run(ctx):
